@@ -130,6 +130,19 @@ def run(ctx):
             if bad:
                 ctx.violation(dict(kind='benign-parse-does-more-than-read', file=os.path.basename(f), events=bad[:10],
                                    how='ReplayParser(file).get_info() under sys.addaudithook (tools/c18.audited_parse)'))
+        # (1a) a replay much bigger than any sample (a packet stream of 9 MiB of unmapped packets around a small battle): still nothing but the replay
+        # and the bundle is opened - no spill files, wherever buffers are kept
+        from tools import c15 as c15_
+        bigb, bigvs = battle.build_wows('13_2_0', random.Random(5))
+        filler = b''.join(struct.pack('<IIf', 65536, 0x99, 1.0) + bytes(random.Random(k_).randrange(256) for _ in range(64)) * 1024 for k_ in range(144))
+        pbig = os.path.join(tmp, 'big.wowsreplay'); c15_.fast_write(pbig, 'wowsreplay', json.dumps({'clientVersionFromXml': bigvs}).encode(), bigb.stream() + filler, level=0)
+        out, ev, marks = audited_parse(pbig)
+        ctx.case(('benign-big', os.path.getsize(pbig)))
+        bad = judge(pbig, ev, [bundled])
+        if bad or out != 'ok':
+            ctx.violation(dict(kind='benign-parse-does-more-than-read', file='a %d-byte replay (9 MiB of unmapped packets behind a 13.2.0 battle)' % os.path.getsize(pbig), outcome=out, events=bad[:10],
+                               how='ReplayParser(file).get_info() under sys.addaudithook; only the replay and the bundled definitions may be opened'))
+        os.unlink(pbig)
         # (1b) "an explicitly requested dump" is requested by THAT parse only: a later parse without a dump request opens nothing but its own
         # replay and the bundle, and the earlier dump keeps its content
         from replay_parser import ReplayParser as RP0
@@ -221,9 +234,12 @@ def run(ctx):
                 try: b.cell_player(A)
                 except Exception: pass
             hp2 = hostile_pickle(); npk = 0
-            def has_py(t): return t[0] == 'python' or (t[0] == 'user' and has_py(t[1])) or (t[0] == 'array' and has_py(t[1])) or (t[0] == 'dict' and any(has_py(ft) for _, ft in t[1]))
+            # (wot / wowp: no bundled controller unpickles anything, so there EVERY byte-carrying argument and property - BLOB as well as PYTHON - gets the pickle)
+            carry = ('python', 'blob') if game in ('wot', 'wowp') else ('python',)
+            def has_py(t): return t[0] in carry or (t[0] == 'user' and has_py(t[1])) or (t[0] == 'array' and has_py(t[1])) or (t[0] == 'dict' and any(has_py(ft) for _, ft in t[1]))
             def fill(t):
                 if t[0] == 'python': return ('b', hp2)
+                if t[0] == 'blob' and 'blob' in carry: return ('s', hp2)
                 if t[0] == 'user': return fill(t[1])
                 if t[0] == 'array': return [fill(t[1])] * (t[2] if t[2] is not None else 1)
                 if t[0] == 'dict': return {n: fill(ft) for n, ft in t[1]}
